@@ -57,7 +57,7 @@ func (g *G) Weighted(ws []int, label string) int {
 // siblings that sort between `d` and `d/` ('-' 0x2d, '.' 0x2e < '/' 0x2f < '0');
 // names that are prefixes / substrings of each other; regexp metacharacters.
 var (
-	bases    = []string{"a", "b", "d", "ad", "lib", "test", "x", "é", "Z", "build", "r\xe9sum\xe9", "rebuild", "mytest"}
+	bases    = []string{"a", "b", "d", "ad", "lib", "test", "x", "é", "Z", "build", "r\xe9sum\xe9", "rebuild", "mytest", "\xff", "~", "\xffz"}
 	suffixes = []string{"", "", "", ".go", ".c", "-old", "-data", "0", "1", " b", "(1)", "(", "+", "_", ".", "[", "ü", " ", "-", "+x", ".txt", ".log", ".tmp", ".tmpx", ".c++", "\xff", "%d", "%", "100%s", `\b`, `\`}
 	// IgnoreDirs / IgnoreExts are what a generated .goitignore may contain. Extensions are never
 	// used in directory names, so "ignored" is unambiguous in the generated domain.
@@ -241,7 +241,7 @@ func (g *G) NewPath() string {
 		sort.Strings(stems)
 		if len(stems) > 0 {
 			stem := g.Pick(stems, "stem")
-			p := stem + g.Pick([]string{"-x", ".c", " b", "+", "(1)", "0", "_", "s", ".", "-", "x", "-old", "2"}, "sibSuffix")
+			p := stem + g.Pick([]string{"-x", ".c", " b", "+", "(1)", "0", "_", "s", ".", "-", "x", "-old", "2", ".tmp", ".lock", "~", ".orig", ".new"}, "sibSuffix")
 			if g.Chance(40, "siblingIsDirectory") {
 				p = p + "/" + g.Component() // a sibling DIRECTORY whose name extends the stem: lib/ next to lib-old/
 			}
